@@ -263,6 +263,30 @@ var (
 	cur     atomic.Pointer[Exec]
 )
 
+type userCtx struct {
+	parent context.Context
+	mu     sync.Mutex
+	done   chan struct{}
+	err    error
+}
+
+func (c *userCtx) Deadline() (time.Time, bool) { return time.Time{}, false }
+func (c *userCtx) Done() <-chan struct{}       { return c.done }
+func (c *userCtx) Value(k any) any             { return c.parent.Value(k) }
+func (c *userCtx) Err() error {
+	c.mu.Lock()
+	defer c.mu.Unlock()
+	return c.err
+}
+func (c *userCtx) cancel() {
+	c.mu.Lock()
+	defer c.mu.Unlock()
+	if c.err == nil {
+		c.err = context.Canceled
+		close(c.done)
+	}
+}
+
 // NewExec prepares an execution. The scenario must have been built for this
 // exec id (tokens carry it): use NextID first.
 func NextID() uint64 { return execSeq.Add(1) & 0xFFFFF }
@@ -271,6 +295,13 @@ func NewExec(id uint64, p *prog.Program, sc *prog.Scenario, quiet bool) *Exec {
 	x := &Exec{ID: id, Prog: p, Sc: sc, Quiet: quiet}
 	base := context.WithValue(context.Background(), execKey{}, x)
 	x.ctx, x.cancelFn = context.WithCancel(base)
+	if sc.UserCtx {
+		// a context implemented outside the standard library, with a Done channel
+		// of its own: contexts derived from it are served by a goroutine of the
+		// context package until they are cancelled
+		u := &userCtx{parent: base, done: make(chan struct{})}
+		x.ctx, x.cancelFn = u, u.cancel
+	}
 	if sc.FarDeadline {
 		// a context with a deadline (far away) and a parent that can be cancelled
 		var c2 context.CancelFunc
